@@ -470,6 +470,24 @@ def exclusive_guard(prog, chk, rid, fams=("String", "Variant", "Xml::Variant"), 
                 if t == "*(this->data + 1)":
                     ty = f.nodes[s.lhs].get("t", "")
                     events.append((s.node, ty, "assigns through the current payload"))
+            # (c) a non-const member of the payload type called on the current payload (`((List*)(data + 1))->swap(copy)`)
+            for c in q.calls(f):
+                n = f.nodes[c]
+                if n["k"] != "CXXMemberCallExpr" or (n.get("csig") or "").endswith(" const") or "~" in (n.get("callee") or ""):
+                    continue        # (payload destructors are the release rule's business)
+                o = q.call_object(f, c)
+                if o is None:
+                    continue
+                ot = q.no_casts(f.r(o)).strip("()")
+                if ot not in ("this->data + 1", "*(this->data + 1"):
+                    continue
+                on = f.nodes[f.strip(o)]
+                while on["k"] in ("ParenExpr", "ImplicitCastExpr") and on["c"]:
+                    on = f.nodes[on["c"][0]]
+                ty = (on.get("t") or "").replace("const ", "").rstrip(" *")
+                if (on.get("t") or "").startswith("const "):
+                    continue
+                events.append((c, ty, "calls %s on the current payload" % (n.get("callee") or "").split("::")[-1]))
             for i, ty, what in events:
                 # skip when data was re-seated from new on every path to the event
                 pos = f.node_pos(i)
@@ -716,6 +734,34 @@ def argument_after_release(prog, chk, rid, fams=("Variant", "Xml::Variant", "Ref
                         rel.append(i)
             reads = [i for i, n in enumerate(f.nodes) if n["k"] == "DeclRefExpr" and n["ref"].get("id") == other["id"] and f.node_pos(i) is not None]
             where = "%s:%s" % (f.file, f.line)
+            # the in-place branch hands the argument to the payload's own assignment operator: if that operator destroys its elements
+            # before it reads its argument (summary read off the callee), an argument that lives inside one of those elements is gone
+            for c in q.calls(f):
+                n = f.nodes[c]
+                if n["k"] != "CXXOperatorCallExpr" or n.get("oop") != "=" or len(n["c"]) < 3:
+                    continue
+                lhs_t, arg = q.no_casts(f.r(n["c"][1])), n["c"][2]
+                if not re.search(r"this->%s \+ 1" % re.escape(d["ptr"]), lhs_t):
+                    continue
+                if not any(f.nodes[x]["k"] == "DeclRefExpr" and f.nodes[x]["ref"].get("id") == other["id"] for x in [f.strip(arg)] + list(f.desc(arg))):
+                    continue
+                callee = n.get("callee", "")
+                g = next((h for h in prog.functions.values() if h.name == callee or h.gname == callee), None)
+                destroys_first = None
+                if g is not None and g.blocks and g.params:
+                    gp = g.params[0]
+                    dest = [i for i in q.calls(g) if g.nodes[i].get("callee", "").endswith("::clear")] + [x for x, _o in C.dtor_events(g)] + \
+                           [i for i, m_ in enumerate(g.nodes) if m_["k"] == "CXXDeleteExpr"]
+                    rds = [i for i, m_ in enumerate(g.nodes) if m_["k"] == "DeclRefExpr" and m_["ref"].get("id") == gp["id"] and g.node_pos(i) is not None]
+                    destroys_first = any(q.reaches(g, a_, b_) for a_ in dest for b_ in rds)
+                ctype = callee.split("::operator=")[0]
+                if destroys_first and fam.split("::")[-1] in (n.get("ccls", "") + callee + f.r(n["c"][1])):
+                    chk.bad(rid, f, "argument-handed-to-destroying-assignment:" + other["n"], f.where(c),
+                            "`%s` is assigned in place through %s, which destroys the current elements before it reads its argument; when "
+                            "the argument lives inside one of those elements (`v = v.toList().front().toList()`) it is read after its "
+                            "destruction" % (other["n"], callee), evals=3)
+                elif destroys_first is not None:
+                    chk.ok(rid, f, "in-place assignment through %s" % ctype, f.where(c), "callee summary: destroys before reading = %s" % destroys_first, evals=2)
             if not rel:
                 chk.ok(rid, f, "assignment releases nothing itself", where, "no clear()/delete in this overload", nontrivial=False)
                 continue
